@@ -480,9 +480,9 @@ fn run_inner(w: &mut World, s: &HistScenario) -> RunOut {
                 let mut bytes = content.text().into_bytes();
                 // a tail that is a well-formed comment leaves the document what it was
                 let comment_tail = tail.is_empty()
-                    || (tail.starts_with(b"\n//") && std::str::from_utf8(tail).is_ok());
+                    || (tail.starts_with(b"\n//") && std::str::from_utf8(tail.as_slice()).is_ok());
                 let meta = if comment_tail { meta_of(content) } else { None };
-                bytes.extend_from_slice(tail);
+                bytes.extend_from_slice(tail.as_slice());
                 if let Some(dir) = &w.scratch {
                     let real = format!("{dir}/{}", disk_slot(path).trim_start_matches('/'));
                     if std::fs::write(&real, &bytes).is_err() {
@@ -1175,7 +1175,12 @@ fn check_c13(
 
     // clause "stub": the result equals the one obtained with the rest of the project replaced
     // by empty items of the registered kinds
-    for (k, (text, f)) in &facts {
+    // Note: in very large projects only every n-th file gets a stub project per observation
+    let stride = (facts.len() + 59) / 60;
+    for (idx, (k, (text, f))) in facts.iter().enumerate() {
+        if stride > 1 && idx % stride != (si % stride) {
+            continue;
+        }
         // Note: files without a tree are checked too (their stub project is the file alone)
         let cache_key = (text.clone(), f.clone() + &format!("{:?}", others[k]));
         let expected = match w.stub_cache.get(&cache_key) {
